@@ -106,7 +106,10 @@ def model_line_after(case, obs):
     if o is None:
         return "#"
     m = o["raw"]
-    return "swr %s %s %s" % (m.group(1), m.group(2), m.group(4))
+    sc = scripts(case)
+    nw = sum(1 for x in case.split(" ") if x.startswith("main=") for y in x[5:].split(",") if y == "N")
+    progs = [",".join(sc.get("m", []))] + [",".join(sc[k]) for k in sorted((k for k in sc if k != "m"), key=lambda z: int(z[1:]))]
+    return "swr %s %s %s %s %d|%s" % (m.group(1), m.group(2), m.group(4), "1" if " live=1" in case else "0", nw, "|".join(progs))
 
 
 def agree_after(im, mo):
